@@ -101,6 +101,9 @@ func (r *Reader) GetMeta(key string) string {
 	return r.meta[key]
 }
 
+// maxHeaderSize bounds the header length read from the file before it is used as an allocation size.
+const maxHeaderSize = 16 << 20
+
 func readHeaderSize(reader io.ReaderAt) (int64, error) {
 	// read header size:
 	headerSizeBuf := make([]byte, 4)
@@ -108,6 +111,10 @@ func readHeaderSize(reader io.ReaderAt) (int64, error) {
 		return 0, err
 	}
 	headerSize := int64(binary.LittleEndian.Uint32(headerSizeBuf))
+	if headerSize > maxHeaderSize {
+		// the header holds the metadata and at most 65536 prefix/offset pairs
+		return 0, fmt.Errorf("header size %d exceeds the maximum of %d", headerSize, maxHeaderSize)
+	}
 	return headerSize, nil
 }
 
